@@ -61,12 +61,17 @@ pub fn build(a: &[Sexp]) -> Option<Box<dyn Scenario>> {
 struct ThreadWaker {
   thread: shuttle::thread::Thread,
   token: Arc<AtomicBool>,
+  /// a waker belongs to one task: waking the waker of a task the future has left does not run the task that polls
+  /// it now (`stale` is set when the executor moves on to another waker)
+  stale: Arc<AtomicBool>,
 }
 impl Wake for ThreadWaker {
   fn wake(self: Arc<Self>) {
     facade::log("h", 0, "", "wake".into());
     self.token.store(true, Ordering::SeqCst);
-    self.thread.unpark();
+    if !self.stale.load(Ordering::SeqCst) {
+      self.thread.unpark();
+    }
   }
 }
 
@@ -101,7 +106,8 @@ impl Scenario for ToVecSc {
       let mut fut_again = Box::pin(tv.clone());
       let mut fut = Box::pin(tv);
       let mut token = Arc::new(AtomicBool::new(false));
-      let mut waker = Waker::from(Arc::new(ThreadWaker { thread: shuttle::thread::current(), token: token.clone() }));
+      let mut stale = Arc::new(AtomicBool::new(false));
+      let mut waker = Waker::from(Arc::new(ThreadWaker { thread: shuttle::thread::current(), token: token.clone(), stale: stale.clone() }));
       let mut switched = false;
       let mut polls = 0;
       loop {
@@ -144,8 +150,11 @@ impl Scenario for ToVecSc {
               // the future moves to another task: the next poll (the model's spurious return from park) brings a
               // DIFFERENT waker, and from now on only that one is listened to - a poll must replace the stored waker
               switched = true;
-              token = Arc::new(AtomicBool::new(false));
-              waker = Waker::from(Arc::new(ThreadWaker { thread: shuttle::thread::current(), token: token.clone() }));
+              stale.store(true, Ordering::SeqCst);
+              let woken_meanwhile = token.load(Ordering::SeqCst);
+              token = Arc::new(AtomicBool::new(woken_meanwhile));
+              stale = Arc::new(AtomicBool::new(false));
+              waker = Waker::from(Arc::new(ThreadWaker { thread: shuttle::thread::current(), token: token.clone(), stale: stale.clone() }));
               facade::log("h", 0, "", "spurious".into());
               continue;
             }
